@@ -4,6 +4,7 @@ package main
 // per-lemma generation of obligations.
 
 import (
+	"go/ast"
 	"fmt"
 	"go/constant"
 	"go/token"
@@ -30,6 +31,8 @@ type Verifier struct {
 	repo     string
 	storedGlobals map[*ssa.Global]bool
 	loadSeconds float64
+	lockSigs map[string]*FuncSig // signatures of locals on the reference tree (rename tolerance)
+	sigs     map[string]*FuncSig // signatures seen in this run
 }
 
 func LoadVerifier(repo string, depsDir string) (*Verifier, error) {
@@ -364,6 +367,126 @@ func (v *Verifier) wfAssume(c *Ctx, val Val) Term {
 	return and(ts...)
 }
 
+// FuncSig records the source-level names a function's contract can refer to,
+// as they were on the reference tree: parameters and results by position,
+// locals with their types. A later run in which exactly one local (of a
+// given type) has disappeared and exactly one new local of that type has
+// appeared treats the new name as the old one: renaming a local or a
+// parameter does not touch any obligation.
+type FuncSig struct {
+	Params  []string          `json:"params"`
+	Results []string          `json:"results"`
+	Locals  map[string]string `json:"locals"`
+}
+
+func funcSigOf(fn *ssa.Function) *FuncSig {
+	sg := &FuncSig{Locals: map[string]string{}}
+	for _, p := range fn.Params {
+		sg.Params = append(sg.Params, p.Name())
+	}
+	for _, fv := range fn.FreeVars {
+		sg.Params = append(sg.Params, fv.Name())
+	}
+	rs := fn.Signature.Results()
+	for i := 0; i < rs.Len(); i++ {
+		sg.Results = append(sg.Results, rs.At(i).Name())
+	}
+	isParam := map[string]bool{}
+	for _, n := range sg.Params {
+		isParam[n] = true
+	}
+	add := func(name string, t types.Type) {
+		if name == "" || name == "_" || isParam[name] || name == "complit" || name == "varargs" || strings.ContainsAny(name, " .") {
+			return
+		}
+		ts := types.TypeString(t, nil)
+		if old, ok := sg.Locals[name]; ok && old != ts {
+			if !strings.Contains(old, ts) {
+				sg.Locals[name] = old + " | " + ts
+			}
+			return
+		}
+		sg.Locals[name] = ts
+	}
+	for _, b := range fn.Blocks {
+		for _, in := range b.Instrs {
+			switch in := in.(type) {
+			case *ssa.DebugRef:
+				if id, ok := in.Expr.(*ast.Ident); ok {
+					t := in.X.Type()
+					if in.IsAddr {
+						t = derefType(t)
+					}
+					add(id.Name, t)
+				}
+			case *ssa.Alloc:
+				add(in.Comment, derefType(in.Type()))
+			case *ssa.Phi:
+				add(in.Comment, in.Type())
+			}
+		}
+	}
+	return sg
+}
+
+// renameAliases: old name -> current name, for parameters/results by position
+// and for locals by unique type match among the names that disappeared/appeared.
+func renameAliases(old, cur *FuncSig) map[string]string {
+	al := map[string]string{}
+	if old == nil {
+		return al
+	}
+	if len(old.Params) == len(cur.Params) {
+		for i := range old.Params {
+			if old.Params[i] != cur.Params[i] && old.Params[i] != "" && cur.Params[i] != "" {
+				al[old.Params[i]] = cur.Params[i]
+			}
+		}
+	}
+	if len(old.Results) == len(cur.Results) {
+		for i := range old.Results {
+			if old.Results[i] != cur.Results[i] && old.Results[i] != "" && cur.Results[i] != "" {
+				al[old.Results[i]] = cur.Results[i]
+			}
+		}
+	}
+	var missing, added []string
+	for n := range old.Locals {
+		if _, ok := cur.Locals[n]; !ok {
+			missing = append(missing, n)
+		}
+	}
+	for n := range cur.Locals {
+		if _, ok := old.Locals[n]; !ok {
+			added = append(added, n)
+		}
+	}
+	sort.Strings(missing)
+	sort.Strings(added)
+	for _, m := range missing {
+		var cands []string
+		for _, a := range added {
+			if cur.Locals[a] == old.Locals[m] {
+				cands = append(cands, a)
+			}
+		}
+		if len(cands) != 1 {
+			continue
+		}
+		// the candidate must not be the unique match of another missing name
+		n := 0
+		for _, m2 := range missing {
+			if old.Locals[m2] == cur.Locals[cands[0]] {
+				n++
+			}
+		}
+		if n == 1 {
+			al[m] = cands[0]
+		}
+	}
+	return al
+}
+
 func (v *Verifier) VerifyFunc(fc *FuncContract) (res *FuncResult) {
 	res = &FuncResult{Name: fc.Full(), Contract: fc}
 	fn := v.findFunc(fc.Pkg, fc.Name)
@@ -374,6 +497,17 @@ func (v *Verifier) VerifyFunc(fc *FuncContract) (res *FuncResult) {
 	c := NewCtx()
 	c.specs = v.cs.Specs
 	res.Ctx = c
+	{
+		sg := funcSigOf(fn)
+		if v.sigs == nil {
+			v.sigs = map[string]*FuncSig{}
+		}
+		v.sigs[fc.Full()] = sg
+		c.alias = renameAliases(v.lockSigs[fc.Full()], sg)
+		for o, n := range c.alias {
+			c.dropped[fmt.Sprintf("renamed since the reference tree: `%s` is now `%s` in %s (contract clauses follow the rename)", o, n, fc.Full())] = true
+		}
+	}
 	var obls []*Obligation
 	var allocs []Term
 	ex := &Exec{v: v, c: c, fn: fn, fc: fc, fname: fc.Full(), vals: map[ssa.Value]Val{}, obls: &obls,
